@@ -8,6 +8,7 @@ open Nervus.Driver
 def streams : List (String × Stream) := [
   ("okey", OKeyStream.stream),
   ("query", CypherStream.stream),
+  ("querystat", CypherStream.statStream),
   ("update", UpdateStream.stream),
 ]
 
